@@ -304,6 +304,9 @@ fn parse_cron_part(
         if part == "*" {
             values.extend(min..=max);
         } else if let Some(step) = part.strip_prefix("*/") {
+            if !step.chars().all(|char| char.is_ascii_digit()) {
+                return Err(format!("Invalid character in step value: {}", step));
+            }
             let step: u8 = step
                 .parse()
                 .map_err(|_| format!("Can't parse step value to u8: {}", step))?;
